@@ -56,7 +56,10 @@ func runC04(t *testing.T, e *worlds.Env, tier string) (bool, any) {
 		protos := gen.All()
 		var cands []*gen.Proto
 		for _, p := range protos {
-			if !p.Slow {
+			// (quic included: quic-go's listener runs inside the bubble on fake timers; its goroutines are
+			// not parked by the scheduler but run to quiescence between two of its steps - event hashes
+			// were identical over 3000 seeds x 6 processes at GOMAXPROCS 1/4/16)
+			if !p.Slow || p.Name == "quic" {
 				cands = append(cands, p)
 			}
 		}
@@ -119,6 +122,7 @@ func runC04(t *testing.T, e *worlds.Env, tier string) (bool, any) {
 				nm = ms[tp.Choose(len(ms), "config")]
 			}
 			sample.Target = "matcher " + nm.Name
+			e.S.Stats["target_"+p.Name]++
 			pm = &PurityMatcher{E: e, Inner: nm.M, Name: nm.Name, Tag: "C04", MeasureAlloc: true, AllocLimit: c04AllocLimit}
 			never := &worlds.SpecMatcher{E: e, ID: "never", Never: true}
 			routes = layer4.RouteList{
